@@ -30,6 +30,10 @@ pub struct Case {
     /// byte-identical
     #[serde(default)]
     pub nocase: bool,
+    /// `newline_terminated(..)` set explicitly on the builder (None: left at
+    /// its default, which is `true` for line diffs)
+    #[serde(default)]
+    pub nl_flag: Option<bool>,
 }
 
 #[derive(Clone, Debug, PartialEq)]
@@ -363,6 +367,9 @@ impl C16 {
             guarded(|| {
                 let mut cfg = TextDiff::configure();
                 cfg.algorithm(t.alg.to());
+                if let Some(b) = case.nl_flag {
+                    cfg.newline_terminated(b);
+                }
                 if t.bytes {
                     let diff = cfg.diff_lines(&t.old[..], &t.new[..]);
                     self.run_ops(case, &diff, out, &mut dig)
@@ -488,6 +495,11 @@ impl Prop for C16 {
             },
             sample_seed: rng.next(),
             nocase,
+            nl_flag: match rng.below(6) {
+                0 => Some(false),
+                1 => Some(true),
+                _ => None,
+            },
         }
     }
     fn exec(&self, case: &Case) -> RunOut {
@@ -531,6 +543,11 @@ impl Prop for C16 {
         if case.nocase {
             let mut c = case.clone();
             c.nocase = false;
+            out.push(c);
+        }
+        if case.nl_flag.is_some() {
+            let mut c = case.clone();
+            c.nl_flag = None;
             out.push(c);
         }
         out
